@@ -279,19 +279,19 @@ def measure_catch_table():
         mk_patch, req = ss[s]
         base = app.call(req)
         if base['status'] not in (200, 206) and not (s == 'digestKeqv' and base['status'] == 401):
-            raise common.HarnessError('site %s: the un-injected probe request answers %s, expected 200 (%s)'
-                                      % (s, base['status'], base.get('exc')))
+            # the un-injected probe is not answered normally on this tree: record what it does (the table then
+            # differs from the transcription and the request stream decides whether the property is broken)
+            for name, _cls in UNIVERSE + [(HTTP400, None)]:
+                table[(s, name)] = 500 if base['status'] >= 500 else base['status']
+            continue
         for name, _cls in UNIVERSE + [(HTTP400, None)]:
             _inject['exc'] = name
-            with mk_patch():
-                obs = app.call(req)
-            _inject['exc'] = None
+            try:
+                with mk_patch():
+                    obs = app.call(req)
+            finally:
+                _inject['exc'] = None
             st = obs['status']
-            if st >= 500 and not obs['escaped']:
-                e = obs.get('exc') or {}
-                want = 'HTTPError' if name == HTTP400 else dict(UNIVERSE)[name].__name__
-                if e.get('exc') not in (want, 'HTTPError'):
-                    raise common.HarnessError('site %s: injected %s but the 5xx came from %s' % (s, name, e))
             table[(s, name)] = 500 if st >= 500 else st
     return table
 
